@@ -95,7 +95,7 @@ def prop_theorems(prop):
 def audit(prop):
     """#print axioms for every theorem of the property; returns dict name -> list of axioms."""
     names = prop_theorems(prop)
-    body = f"import ACModel.Props.{prop}\n" + "".join(f"#print axioms {n}\n" for n in names)
+    body = f"import ACModel.Props.{prop}\nset_option pp.unicode.fun true\n" + "".join(f"#print axioms {n}\n#check @{n}\n" for n in names)
     tmp = os.path.join(LEAN, f".audit_{prop}_{os.getpid()}.lean")
     open(tmp, "w").write(body)
     try:
@@ -110,7 +110,53 @@ def audit(prop):
     for m in re.finditer(r"'([^']+)' does not depend on any axioms", out):
         res[m.group(1)] = []
     missing = [n for n in names if n not in res]
+    # statements as Lean prints them (`#check @name`), for the statement lock
+    stmts, cur = {}, None
+    for line in out.splitlines():
+        m = re.match(r"@?(\S+) : (.*)", line)
+        if m and m.group(1) in names:
+            cur = m.group(1); stmts[cur] = m.group(2)
+        elif line.startswith("'") or re.match(r"\S+\.lean:\d+:\d+", line):
+            cur = None
+        elif cur is not None:
+            stmts[cur] += " " + line.strip()
+    audit.statements = {n: " ".join(t.split()) for n, t in stmts.items()}
     return names, res, missing, out[-2000:] if (p.returncode != 0 or missing) else ""
+
+
+LOCK = os.path.join(LEAN, "ACModel", "Props", "STATEMENTS.lock")
+
+
+def stmt_hash(text):
+    return hashlib.sha256(text.encode()).hexdigest()[:16]
+
+
+def spec_hashes():
+    d = os.path.join(LEAN, "ACModel", "Spec")
+    return {f: stmt_hash(" ".join(strip_comments(open(os.path.join(d, f)).read()).split())) for f in sorted(os.listdir(d)) if f.endswith(".lean")}
+
+
+def check_statement_lock(prop, names, statements):
+    """The statement of every property theorem is pinned in Props/STATEMENTS.lock (regenerate with
+    `python -m harness.lock` after a deliberate change): a theorem cannot be weakened, renamed or
+    deleted to make a proof pass without the check reporting it."""
+    if not os.path.exists(LOCK):
+        return ["Props/STATEMENTS.lock is missing"], 0
+    whole = json.load(open(LOCK))
+    lock = whole.get(prop, {})
+    probs = [f"specification file Spec/{f} differs from Props/STATEMENTS.lock" for f, h in spec_hashes().items()
+             if whole.get("_spec", {}).get(f) != h]
+    for n in names:
+        if n not in statements:
+            probs.append(f"statement of {n} could not be read")
+        elif n not in lock:
+            probs.append(f"theorem {n} is not in Props/STATEMENTS.lock")
+        elif lock[n]["sha"] != stmt_hash(statements[n]):
+            probs.append(f"statement of theorem {n} differs from Props/STATEMENTS.lock: now `{statements[n][:300]}`")
+    for n in lock:
+        if n not in names:
+            probs.append(f"theorem {n} of Props/STATEMENTS.lock is no longer stated in Props/{prop}.lean")
+    return probs, len([n for n in names if n in lock and n in statements and lock[n]["sha"] == stmt_hash(statements[n])])
 
 
 def lean_stage(prop):
@@ -131,8 +177,10 @@ def lean_stage(prop):
     bad = {n: a for n, a in axioms.items() if not set(a) <= ALLOWED_AXIOMS}
     if bad:
         problems.append(f"theorems depending on non-standard axioms: {bad}")
+    lock_probs, locked = check_statement_lock(prop, names, getattr(audit, "statements", {}))
+    problems += lock_probs
     info.update(obligations=len(names), discharged=len([n for n in names if n in axioms and n not in bad]),
-                axioms={n: axioms.get(n) for n in names})
+                axioms={n: axioms.get(n) for n in names}, statements_matching_lock=locked)
     if os.environ.get("VERIF_TIER_RUN") == "thorough":
         # independent re-check of the compiled module (and everything it imports) by leanchecker
         with build_lock():
@@ -256,6 +304,12 @@ def write_evidence(prop, tier, seed, lean_info, coverage, wall, violations, assu
         "axioms_per_theorem": lean_info.get("axioms", {}),
         "lean_build_ok": lean_info.get("build_ok"),
     })
+    try:
+        from . import fingerprints
+        cov["drift_report"] = fingerprints.drift(prop)
+    except Exception as e:  # never gating
+        cov["drift_report"] = {"error": repr(e)}
+    cov["statements_matching_lock"] = lean_info.get("statements_matching_lock")
     if "leanchecker_ok" in lean_info:
         cov["leanchecker_ok"] = lean_info["leanchecker_ok"]
     ev = {"property_id": prop, "tier": tier, "seed": seed, "level": "proof", "coverage": cov,
